@@ -39,7 +39,6 @@ import (
 	"seata.apache.org/seata-go/pkg/datasource/sql/util"
 	"seata.apache.org/seata-go/pkg/protocol/branch"
 	"seata.apache.org/seata-go/pkg/rm"
-	"seata.apache.org/seata-go/pkg/util/backoff"
 	seatabytes "seata.apache.org/seata-go/pkg/util/bytes"
 	"seata.apache.org/seata-go/pkg/util/log"
 )
@@ -102,24 +101,13 @@ func (s *selectForUpdateExecutor) ExecContext(ctx context.Context, f exec.Callba
 		return nil, err
 	}
 
-	bf := backoff.New(ctx, backoff.Config{
-		MaxRetries: s.cfg.RetryTimes,
-		MinBackoff: s.cfg.RetryInterval,
-		MaxBackoff: s.cfg.RetryInterval,
-	})
+	// one attempt. An error of the database - the statement's own lock wait timeout, the refusal of a NOWAIT
+	// read - is what the statement returns without the proxy, and a conflict with a global lock is reported at
+	// once, as it is to a writer. (The loop that stood here repeated exactly the database errors, retry-times
+	// times retry-interval apart, for ever with a zero configuration, each time with one more savepoint.)
+	result, err = s.doExecContext(ctx, f)
 
-	for bf.Ongoing() {
-		result, err = s.doExecContext(ctx, f)
-		if err == nil || errors.Is(err, lockConflictError) {
-			break
-		}
-		bf.Wait()
-	}
-
-	if bf.Err() != nil || err != nil {
-		if err == nil {
-			err = bf.Err()
-		}
+	if err != nil {
 		// if there is an err in doExecContext, we should rollback first
 		if s.savepointName != "" {
 			if _, rollerr := s.exec(ctx, fmt.Sprintf("rollback to %s;", s.savepointName), nil, nil); rollerr != nil {
